@@ -243,6 +243,16 @@ def ITE(c, a, b) -> sp.Basic:
         return ITE(F_("eq")(*c.args), b, a)
     if fc == "ge":
         return ITE(F_("lt")(*c.args), b, a)
+    # inside the arm where c holds, c is true (a value selected under the same test earlier collapses to its arm)
+    try:
+        if a.has(c):
+            a = assume(a, {c: True})
+        if b.has(c):
+            b = assume(b, {c: False})
+        if a == b:
+            return a
+    except Exception:
+        pass
     return F_("ite")(c, a, b)
 
 
